@@ -41,6 +41,12 @@ theorem facts_covered :
 theorem facts_ordered :
     ∀ e ∈ Gen.Lock.edges, (e.1, e.2.2.1) ∈ allowEdges ∨ rank e.1 < rank e.2.2.1 := by decide
 
+/-- The one exception to the rank rule is confined: for every exempt edge (a, b), the functions that hold `b` while `a` is
+    acquired — i.e. that take the two locks in the opposite order — are exactly the listed ones (code that only runs while
+    a connection is up). -/
+theorem facts_exception_confined :
+    ∀ h ∈ Gen.Lock.edgeHolders, (h.2.1, h.1) ∈ allowEdges → h.2.2 ∈ reverseHolders := by decide
+
 /-- No user code (handlers, callbacks) and no unbounded blocking operation runs while a lock is held,
     except the listed bounded ones. -/
 theorem facts_no_callouts_under_lock :
